@@ -160,8 +160,8 @@ def _rand_key(rng, shape, write, grow_p=0.25, forms=("int", "int", "int", "int",
         elif f == "slice":
             c = int(rng.integers(0, 6))
             if c == 5:
-                # strided slices (spans that are / are not a multiple of the step, reversed ones for reads)
-                step = int(rng.choice([2, 2, 3, -1, -2])) if not write else int(rng.choice([2, 2, 3]))
+                # strided slices (spans that are / are not a multiple of the step), reversed ones
+                step = int(rng.choice([2, 2, 3, -1, -2]))
                 if step > 0:
                     a = None if rng.random() < 0.5 else int(rng.integers(0, I))
                     b = None if rng.random() < 0.5 else int(rng.integers((a or 0) + 1, I + 1))
